@@ -41,6 +41,7 @@ type Row struct {
 	Sasl   Sasl   `json:"sasl"` // endpoint rows: mechanism and authorization identity
 	Nb     string `json:"nb"`   // endpoint rows: neighbour check: absent | none | quarantine | reject
 	Act    string `json:"act"`  // action directives: default | reject | quarantine | custom_reject | custom_quarantine
+	Edit   string `json:"edit"` // tables "file"/"fileprep": what was done to the file before this message (file_test.go)
 	Fam    string `json:"fam"`
 }
 
@@ -48,6 +49,7 @@ const (
 	loc  = "zo\u00eb"         // z o e-diaeresis (NFC)
 	dom  = "ex\u00e4mple.org" // a-diaeresis (NFC); A-label form xn--exmple-cua.org
 	evil = "evil.example"
+	dom2 = "fass\u03c3.example" // second domain of U ("ss" and a sigma: it has deviation-character twins)
 )
 
 // canonical spelling of every mailbox of Authz.tla
@@ -61,6 +63,12 @@ var mailbox = map[string][2]string{
 	"suffix":  {loc, "evil" + dom},
 	"ivy":     {"ivy", dom},
 	"ivyd":    {"\u0130vy", dom}, // capital I with dot above: not the same mailbox, but strings.ToLower makes it "ivy"
+	// a mailbox of U on a second domain, and the three addresses that differ from it by an
+	// IDNA deviation character (other domains under IDNA2008; the same after transitional mapping)
+	"dv":   {"ceo", dom2},
+	"dvss": {"ceo", "fa\u00df\u03c3.example"},     // sharp s for "ss"
+	"dvfs": {"ceo", "fass\u03c2.example"},         // final sigma for sigma
+	"dvzw": {"ceo", "fas\u200cs\u03c3.example"},   // zero-width non-joiner inside
 }
 
 func nfd(s string) string {
@@ -180,6 +188,15 @@ func FromLines(f From) string {
 		return "From: Team: <" + x() + ">, <" + y() + ">;\r\n"
 	case "group1":
 		return "From: Team: <" + x() + ">;\r\n"
+	// a repeated From field whose later instance names further mailboxes
+	case "fields_xy":
+		return "From: <" + x() + ">\r\nFrom: <" + x() + ">, <" + y() + ">\r\n"
+	case "fields_yx":
+		return "From: <" + x() + ">\r\nFrom: <" + y() + ">, <" + x() + ">\r\n"
+	case "fields_g":
+		return "From: <" + x() + ">\r\nFrom: Team: <" + x() + ">, <" + y() + ">;\r\n"
+	case "fields3":
+		return "From: <" + x() + ">\r\nFrom: <" + x() + ">\r\nFrom: <" + y() + ">\r\n"
 	}
 	panic("unknown layout " + f.Layout)
 }
@@ -203,22 +220,33 @@ func q(s string) string { return fmt.Sprintf("%q", s) }
 // CheckConfig is the configuration block body of check.authorize_sender for
 // an entitlement table kind and a normalisation setting.
 func CheckConfig(tbl, norm string, chk bool, act string) string {
+	return checkConfig(tbl, norm, chk, act, "")
+}
+
+// checkConfig: ref is the instance name of the table.file module behind the
+// table kinds "file" (user_to_email) and "fileprep" (prepare_email).
+func checkConfig(tbl, norm string, chk bool, act string, ref string) string {
 	self, alias := Addr(Item{"self", "plain"}), Addr(Item{"alias", "plain"})
 	peer, ivy := Addr(Item{"peer", "plain"}), Addr(Item{"ivy", "plain"})
+	dv := Addr(Item{"dv", "plain"})
 	var s string
 	switch tbl {
 	case "identity":
 		s = "user_to_email identity\n"
 	case "list":
-		s = "user_to_email static {\n    entry " + q(self) + " " + q(self) + " " + q(alias) + " " + q(ivy) + "\n}\n"
+		s = "user_to_email static {\n    entry " + q(self) + " " + q(self) + " " + q(alias) + " " + q(ivy) + " " + q(dv) + "\n}\n"
 	case "domain":
-		s = "user_to_email static {\n    entry " + q(self) + " " + q(dom) + "\n}\n"
+		s = "user_to_email static {\n    entry " + q(self) + " " + q(dom) + " " + q(dom2) + "\n}\n"
 	case "star":
 		s = "user_to_email static {\n    entry " + q(self) + " \"*\"\n}\n"
 	case "absent":
 		s = "user_to_email static {\n    entry \"someone@else.example\" \"someone@else.example\"\n}\n"
 	case "prepare":
 		s = "user_to_email identity\nprepare_email static {\n    entry " + q(alias) + " " + q(self) + "\n}\n"
+	case "file":
+		s = "user_to_email &" + ref + "\n"
+	case "fileprep":
+		s = "user_to_email identity\nprepare_email &" + ref + "\n"
 	case "chain_req": // both steps required; V is in no group
 		s = "user_to_email chain {\n" +
 			"    step static {\n        entry " + q(self) + " \"grp-u\"\n    }\n" +
